@@ -28,7 +28,7 @@ import consumers, scopes, shapes
 LEVEL = 'other'
 EXPLANATION = __doc__
 ASSUMPTIONS = ['Ord::cmp on usize and Option::is_none behave as documented']
-FLOORS = {'F.fork': 4, 'T.adopt-one': 14, 'S.selection': 1, 'W.pick_winner': 3, 'I.itemstate': 10, 'C.conflicts': 1, 'O.order': 2, 'E.env-flag': 2}
+FLOORS = {'F.fork': 4, 'T.adopt-one': 14, 'S.selection': 1, 'W.pick_winner': 3, 'I.itemstate': 10, 'C.conflicts': 2, 'O.order': 2, 'E.env-flag': 2}
 
 def run(ctx):
     cfgs = ['none', 'all'] if ctx.tier == 'quick' else ['none', 'all', 'ac', 'doc']
@@ -280,7 +280,44 @@ def ledger_only(ctx, cfg, fs, rule):
     ctx.ob(rule, 'pick_winner:reads-ledger-only', rd == {'item_state'},
            'pick_winner decides from %s of the two forks (must be the consumption ledger only: no recorded position, scope or path may bias which alternative wins)' % sorted(rd), where=b.where(), cfg=cfg)
 
+def save_conflicts(ctx, cfg, fs):
+    """the winner marks as Conflict exactly the items that are still PRESENT in it and were PARSED by the loser, over the
+    whole ledger: an item that was already consumed before the choice (parsed in both forks) must stay consumed, and no
+    position is skipped"""
+    b = ctx.look(fs.one(r'^args::inner::State::save_conflicts$'))
+    fam = fs.family(b)
+    marks = [(x, i, k, st) for x in fam for i, k, st in x.stmts() if st['k'] == 'assign' and st['rv']['k'] == 'agg' and st['rv'].get('variant') == 'Conflict' and st['rv'].get('adt', '').endswith('ItemState')]
+    ok = bool(marks); why = []
+    ITERS = DEFAULT_THROUGH + [r'Iterator>?::(next|zip|enumerate)$', r'slice::<impl \[T\]>::(iter|iter_mut)$', r'IntoIterator>?::into_iter$']
+    for (x, i, k, st) in marks:
+        conds = {}
+        for (a, s_) in x.transitive_control_deps(i):
+            sw = Switch(x, a)
+            if sw.kind != 'bool' or s_ != sw.target(True):
+                continue
+            for r in sw.roots:
+                if r.kind == 'call' and r.call.is_(r'^args::ItemState::(present|parsed)$'):
+                    side = set()
+                    NOZIP = [t_ for t_ in ITERS if 'zip' not in t_] + [r'Iterator>?::(next|enumerate)$']
+                    for q in provenance(x, r.call.args[0], r.call.bb, 'term', through=NOZIP):
+                        if q.kind in ('param', 'upvar'):
+                            side.add(q.what)
+                        elif q.kind == 'call' and q.call.is_(r'Iterator>?::zip$'):
+                            # element of a zip: the component index says which of the two iterators it came from
+                            comp = [p_ for p_ in q.path if p_ in ('0', '1')]
+                            ix_ = int(comp[-1]) if comp else 0
+                            for z in provenance(x, q.call.args[ix_], q.call.bb, 'term', through=NOZIP):
+                                if z.kind in ('param', 'upvar'): side.add(z.what)
+                    conds.setdefault(r.call.name.split('::')[-1], set()).update(side)
+        good = conds.get('present') == {'self'} and conds.get('parsed') == {'loser'}
+        ok &= good
+        why.append('guarded by %s' % {k_: sorted(v_) for k_, v_ in conds.items()})
+    skips = [c.name.split('::')[-1] for x in fam for c in x.calls() if c.is_(r'Iterator>?::(skip|skip_while|take|take_while|step_by|rev|filter)$')]
+    ctx.ob('C.conflicts', 'save_conflicts:present-in-winner-and-parsed-by-loser', ok and not skips,
+           'save_conflicts marks an item as Conflict only when it is present in the winner and parsed by the loser (%s), visiting every position (adaptors: %s)' % ('; '.join(why) or 'no Conflict mark found', skips or 'none'), where=b.where(), cfg=cfg)
+
 def conflicts(ctx, cfg, fs):
+    save_conflicts(ctx, cfg, fs)
     b = ctx.look(fs.one(r'^error::Message::render$'))
     cc = [c for c in b.calls() if c.is_(r'^error::check_conflicts$')]
     oo = [c for c in b.calls() if c.is_(r'^error::only_once$', r'^meta_youmean::suggest$')]
